@@ -11,6 +11,7 @@ import (
 	"sort"
 	"strconv"
 	"strings"
+	"sync"
 	"time"
 )
 
@@ -125,7 +126,10 @@ func cmdCheck(args []string) int {
 	os.MkdirAll(runDir, 0o755)
 	quickMs, fbMs := 10000, 15000
 	if *tier == "thorough" {
+		// thorough: long budgets, vacuity (cover) queries get 20 s instead of 1.5 s, and every proof
+		// is re-done stand-alone by a second solver family (crossCheck)
 		quickMs, fbMs = 30000, 120000
+		coverMs = 20000
 	}
 	runs := runUnits(w, units, runDir, quickMs, fbMs)
 	if *tier == "thorough" {
@@ -226,6 +230,12 @@ func cmdCheck(args []string) int {
 			bySolver["cvc5"]++
 		}
 	}
+	for _, d := range crossStats.Disagree {
+		engineErrs = append(engineErrs, "solver disagreement: "+d+" is proved by one solver and answered sat by another")
+	}
+	if *tier == "thorough" {
+		trusted[fmt.Sprintf("thorough tier: %d proofs re-done stand-alone; %d confirmed by both z3 5.1 and cvc5, %d by exactly one of them, the rest only by the original run; covers: %v", crossStats.Checked, crossStats.Confirmed, crossStats.OnlyOne, covers)] = true
+	}
 	for _, l := range knownHit {
 		fmt.Println(l)
 	}
@@ -289,16 +299,86 @@ func cmdCheck(args []string) int {
 		"wall_s":      round2(time.Since(t0).Seconds()),
 		"violations":  len(violations),
 	}
-	os.MkdirAll(filepath.Join(verifDir, "evidence"), 0o755)
+	// (the must-fail self-test runs the checks on deliberately broken trees: it redirects the evidence
+	// so that /verif/evidence always describes a run on the tree as it is)
+	evDir := filepath.Join(verifDir, "evidence")
+	if d := os.Getenv("VERIF_EVIDENCE_DIR"); d != "" {
+		evDir = d
+	}
+	os.MkdirAll(evDir, 0o755)
 	js, _ := json.MarshalIndent(ev, "", " ")
-	os.WriteFile(filepath.Join(verifDir, "evidence", *prop+".json"), js, 0o644)
+	os.WriteFile(filepath.Join(evDir, *prop+".json"), js, 0o644)
 	fmt.Printf("%s %s: %d/%d obligations discharged over %d units, %d known findings, %.1fs\n", *prop, *tier, discharged, total, len(units), len(knownHit), time.Since(t0).Seconds())
 	return exit
 }
 
 func round2(x float64) float64 { return float64(int(x*100+0.5)) / 100 }
 
-// crossCheck re-runs every proved obligation alone on each solver (thorough tier) and records disagreement.
+// crossStats: outcome of the thorough tier's independent re-proof.
+var crossStats struct {
+	sync.Mutex
+	Checked, Confirmed, OnlyOne int
+	Disagree                   []string
+}
+
+// crossCheck (thorough tier) re-runs every proved obligation stand-alone on the two solver families
+// (z3 5.1 and cvc5; z3 4.8 as tie-breaker is not needed) and records how many proofs are confirmed
+// by a second, independent solver. A `sat` answer to an obligation another solver proved is a
+// disagreement and is reported as an engine error.
 func crossCheck(runs []*UnitRun, dir string, ms int) {
-	// kept simple: the quick path already races the solvers for anything the incremental run does not prove
+	sem := make(chan struct{}, 16)
+	var wg sync.WaitGroup
+	per := 5000
+	for _, r := range runs {
+		sc := r.Exec.sc
+		udir := filepath.Join(dir, sanitize(sc.Unit))
+		// index of script items by obligation name
+		idx := map[string]int{}
+		for i, it := range sc.Items {
+			if it.Kind == ItOblig {
+				idx[it.Name] = i
+			}
+		}
+		for k := range r.Results {
+			o := &r.Results[k]
+			if o.IsCover || o.Status != "proved" {
+				continue
+			}
+			i, ok := idx[o.Name]
+			if !ok {
+				continue
+			}
+			wg.Add(1)
+			go func(o *ObResult, i int) {
+				defer wg.Done()
+				file := filepath.Join(udir, fmt.Sprintf("x%04d.smt2", i))
+				os.WriteFile(file, []byte(singleScript(sc, i, false)), 0o644)
+				unsat, sat := 0, 0
+				for _, sp := range []solverSpec{solvers[0], solvers[2]} {
+					sem <- struct{}{}
+					out, _ := runSolver(context.Background(), sp, file, per)
+					<-sem
+					switch firstVerdict(out) {
+					case "unsat":
+						unsat++
+					case "sat":
+						sat++
+					}
+				}
+				os.Remove(file)
+				crossStats.Lock()
+				crossStats.Checked++
+				if unsat == 2 {
+					crossStats.Confirmed++
+				} else if unsat == 1 {
+					crossStats.OnlyOne++
+				}
+				if sat > 0 {
+					crossStats.Disagree = append(crossStats.Disagree, o.Name)
+				}
+				crossStats.Unlock()
+			}(o, i)
+		}
+	}
+	wg.Wait()
 }
